@@ -26,6 +26,7 @@ EXPLANATION = (
     "widths are additive (C10). U: what counts as 'no break opportunity' with break_words off; display_width across cuts "
     "inside malformed escapes (excluded by the quantifier)."
     " (R6) same rule as C05.R5 (fragment boundaries are computed by escape-aware scans); the hyphen splitter and the ASCII-space separator are genuine findings recorded in KNOWN_FINDINGS.txt."
+    " U (found by randomised testing of the unmodified tree, not decided by these rules): when the indent is at least as wide as the width, consecutive zero-width fragments (e.g. ZWSP followed by a combining mark) stay on one line, because the greedy test acc + w + p > 0 is false for them."
 )
 ASSUMPTIONS = ["A-rustc", "A-std", "C10 additivity of display_width (paper)"]
 LEVEL_TEXT = (
